@@ -35,11 +35,17 @@ THEOREMS = [
     "JanetModel.Props.C05.delivery_touches_only_receiver",
     "JanetModel.Props.C05.mask_letters_sound",
     "JanetModel.Props.C05.cleanup_arrival",
-    "JanetModel.Props.C05.defer_runs_exactly_once_partial",
-    "JanetModel.Props.C05.edefer_runs_exactly_once_partial",
-    "JanetModel.Props.C05.with_runs_exactly_once_partial",
+    "JanetModel.Props.C05.defer_arrival",
+    "JanetModel.Props.C05.defer_runs_exactly_once",
+    "JanetModel.Props.C05.edefer_runs_exactly_once",
+    "JanetModel.Props.C05.with_runs_exactly_once",
+    "JanetModel.Props.C05.with_is_defer",
+    "JanetModel.Props.C05.priv_is_needed",
     "JanetModel.Props.C05.try_catch_runs_exactly_once_partial",
     "JanetModel.Props.C05.dyn_visibility",
+    "JanetModel.Fiber.step_res",
+    "JanetModel.Fiber.step_G",
+    "JanetModel.Fiber.blocked_until_exit",
 ]
 ENV = dict(os.environ, ASAN_OPTIONS="detect_leaks=0:abort_on_error=0", UBSAN_OPTIONS="print_stacktrace=1")
 CORPUS = os.path.join(VERIF, "corpus", "C05")
